@@ -538,3 +538,8 @@ def check(run):
     r9_handlers(run)
     from ..common_rules import misplaced_rule
     misplaced_rule(run, "R10", {"entity", "server", "request"}, "request parsing")
+    # a signature that is present on a request is checked on every accepting
+    # path of correctly_signed_message (shared with C01.R5: nothing remembered
+    # from an earlier message may stand in for the check)
+    from .c02 import _as
+    _as(run, "R11", c01.r5_present_implies_checked, "R5")
